@@ -43,6 +43,196 @@ def range_dir(it, ext):
     return None
 
 
+class _Unrecognised(Exception):
+    pass
+
+
+def analyse_scan_k(prog, rep, kern, entry, k, O, mode, earlier):
+    """one directional scan on the interpreted kernel (kai): returns (axis, direction, bound variable).
+
+    Facts used: the outer loop's range; the value of every assigned name at the end of an iteration and on each `break`
+    path; "flag-setting" summaries of the inner loops (a flag that is only ever set is true after the loop iff it was true
+    before or some iteration took a setting path).  The control flow may be arranged in any way (stop test at the head or
+    at the tail of the line loop, flag polarity, helper temporaries)."""
+    from fractions import Fraction as Fr
+    from ..kai import cond_repr
+    from ..kutil import CannotEvaluate, eval_cond_full, flag_setting_paths, guard_atoms
+    from ..sym import App, Rat, Sym, walk_atoms
+    data, listparam = kern.params[0], kern.params[1]
+    R, C = Rat.atom(App('shape', [data, 0])), Rat.atom(App('shape', [data, 1]))
+    site = 'for %s in %s' % (norm(O.node.target), norm(O.node.iter))
+
+    def rng(L):
+        for ax, n in (('R', R), ('C', C)):
+            if L.kind in ('range', 'prange') and L.lo == Rat.const(0) and L.hi == n and L.step == Rat.const(1):
+                return ax, 'asc'
+            if L.kind in ('range', 'prange') and L.lo == n - Rat.const(1) and L.hi == Rat.const(-1) and L.step == Rat.const(-1):
+                return ax, 'desc'
+        return None
+    rd = rng(O)
+    if rd is None:
+        raise _Unrecognised('outer range')
+    axis, direction = rd
+    ov = Rat.sym(O.var)
+    # the bound: the name whose value at the end of an iteration is the line index
+    bounds = [n for n, v in O.end_env.items() if isinstance(v, Rat) and v == ov and n != O.node.target.id]
+    flags = [n for n in getattr(O, 'carried', {}) if O.pre.get(n) in (('const', False), Rat.const(0))]
+    inner = [L for L in k.loops if L is not O and L.node in [x for s in O.node.body for x in ast.walk(s)] and
+             not any(L.node in [x for s2 in M.node.body for x in ast.walk(s2)] for M in k.loops if M is not O and M is not L and
+                     M.node in [x for s in O.node.body for x in ast.walk(s)])]
+    if len(bounds) != 1 or len(flags) != 1 or len(inner) != 1:
+        raise _Unrecognised('bound %s, flag %s, %d line loops' % (bounds, flags, len(inner)))
+    bound, flag, X = bounds[0], flags[0], inner[0]
+    fphi = O.carried[flag][0]
+    # ---- T2-stop: once a kept cell was found no later line changes the bound
+    fend = O.end_env.get(flag)
+    lo_atoms = [a for a in (walk_atoms(fend[1]) if isinstance(fend, tuple) and fend[0] == 'truth' else set())
+                if isinstance(a, App) and a.name == 'loopout']
+    stops = []
+    for g, envb, nb in O.breaks:
+        try:
+            head = [eval_cond_full(x, {next(iter(fphi.atoms())): Fr(v)}) for v in (1, 0) for x in g] if len(g) == 1 else None
+        except CannotEvaluate:
+            head = None
+        if head == [True, False] and envb.get(bound) != ov:
+            stops.append('head')
+            continue
+        try:
+            tail = [eval_cond_full(x, {a: Fr(v) for a in lo_atoms}) for v in (1, 0) for x in g] if len(g) == 1 and lo_atoms else None
+        except CannotEvaluate:
+            tail = None
+        if tail == [True, False] and envb.get(bound) == ov:
+            stops.append('tail')
+            continue
+        stops.append('other: %s' % [cond_repr(x)[:60] for x in g])
+    through = isinstance(X.pre.get(flag), tuple) and X.pre.get(flag) == ('truth', fphi) and isinstance(fend, tuple) and \
+        len(lo_atoms) == 1 and lo_atoms[0].args[1] == Rat.sym(X.var)
+    ok = bool(stops) and all(s in ('head', 'tail') for s in stops) and through
+    rep.add('T2-stop', kern, entry, site, O.node.lineno, ok,
+            'each scan records the current line as its bound and stops as soon as a kept cell has been found - before the '
+            'next line is recorded (stop test at the head of the loop) or right after the line that holds it (at the tail): '
+            'bound=%s flag=%s stops=%s, flag carried through the line loop: %s' % (bound, flag, stops, through))
+    if not ok:
+        return axis, direction, bound
+    # ---- T2-line: the whole line is examined
+    ird = rng(X)
+    other = 'C' if axis == 'R' else 'R'
+    if ird is None and earlier and X.kind in ('range', 'prange') and X.step == Rat.const(1):
+        # optimisation: lines outside the already found bounds of the other axis are known to hold no kept cell
+        lo_n, hi_n = earlier.get((other, 'asc')), earlier.get((other, 'desc'))
+        a_lo, a_hi = _single_sym(X.lo), _single_sym(X.hi - Rat.const(1))
+        if lo_n and hi_n and a_lo and a_hi and a_lo.split('(')[-1].startswith(lo_n) and a_hi.split('(')[-1].startswith(hi_n):
+            ird = (other, 'asc')
+    rep.add('T2-line', kern, entry, site + ': for %s in %s' % (norm(X.node.target), norm(X.node.iter)), X.node.lineno,
+            ird is not None and ird[0] == other,
+            'the whole line must be examined: inner loop over the full extent of the other axis')
+    if ird is None or ird[0] != other:
+        return axis, direction, bound
+    rowv, colv = (ov, Rat.sym(X.var)) if axis == 'R' else (Rat.sym(X.var), ov)
+    cell = App('read', [data, rowv, colv])
+    # ---- the per-cell hit: under which condition does the cell at (row, col) set the flag
+    fx = flag_setting_paths(X, flag)
+    vloops = [L for L in k.loops if L is not X and L.node in [x for s in X.node.body for x in ast.walk(s)]]
+    if fx is not None and fx[1] and fx[0] == 1:
+        paths = fx[1]                       # trim-like: a per-cell flag computed by a loop over the list, then tested
+    elif len(vloops) == 1 and flag in getattr(vloops[0], 'carried', {}):
+        # crop-like: the list loop sets the scan flag itself
+        fv = flag_setting_paths(vloops[0], flag)
+        if fv is None or fv[0] != 1:
+            raise _Unrecognised('list loop does not only set the flag')
+        paths = [[('exists', vloops[0], fv[1])]]
+    else:
+        raise _Unrecognised('flag is not set by the line loop')
+    # resolve the loop-out atoms of per-cell flags by their own flag-setting summaries
+    eqs = []
+
+    def hit(exists):
+        res = []
+        for pth in paths:
+            vals = []
+            for g in pth:
+                if g[0] == 'exists':
+                    eqs.append((g[1], g[2]))
+                    vals.append(exists)
+                    continue
+                env = {}
+                for a in guard_atoms([g]):
+                    if isinstance(a, App) and a.name == 'loopout':
+                        L2 = next((L for L in k.loops if Rat.sym(L.var) == a.args[1]), None)
+                        nm = next(iter(a.args[0].atoms())).name if isinstance(a.args[0], Rat) else str(a.args[0])
+                        f2 = flag_setting_paths(L2, nm) if L2 is not None else None
+                        pre2 = L2.pre.get(nm) if L2 is not None else None
+                        p0 = 1 if pre2 in (('const', True), Rat.const(1)) else 0 if pre2 in (('const', False), Rat.const(0)) else None
+                        if f2 is None or p0 is None or f2[0] is None:
+                            raise _Unrecognised('per-cell flag %s' % nm)
+                        eqs.append((L2, f2[1]))
+                        env[a] = Fr(int(f2[0])) if exists else Fr(p0)
+                vals.append(eval_cond_full(g, env))
+            res.append(all(vals))
+        return any(res)
+    try:
+        h1, h0 = hit(True), hit(False)
+    except CannotEvaluate as e:
+        raise _Unrecognised(str(e))
+    want = (False, True) if mode == 'trim' else (True, False)
+    rep.add('T2-keep', kern, entry, site + ': keep test', X.node.lineno, (h1, h0) == want,
+            'a cell is kept iff it equals no excluded value (trim) / selected iff it equals a listed id (crop); the first such '
+            'cell must set the stop flag: flag set when some list value equals the cell: %s, when none does: %s' % (h1, h0))
+    # ---- the equality predicate and the cell it looks at
+    if not eqs:
+        raise _Unrecognised('no list loop')
+    L2, epaths = eqs[0]
+    ats = set()
+    for pth in epaths:
+        ats |= guard_atoms(pth)
+    reads = [a for a in ats if isinstance(a, App) and a.name in ('read', 'cell?') and a.args[0] == data]
+    good = bool(reads) and all(tuple(a.args[1:3]) == (rowv, colv) for a in reads)
+    rep.add('T2-index', kern, entry, site + ': ' + ', '.join(sorted({repr(a)[:40] for a in reads})), X.node.lineno, good,
+            'cells must be read as %s[row, col] with the row index from the row loop and the column index from the '
+            'column loop' % data)
+    lst = [a for a in ats if isinstance(a, App) and a.name in ('elem', 'read', 'cell?') and a.args[0] != data and listparam in repr(a.args[0])]
+    itb = getattr(L2, 'iterable', None)
+    whole = itb == ('param', listparam) or getattr(itb, 'name', None) == listparam or \
+        (L2.kind == 'range' and L2.lo == Rat.const(0) and repr(L2.hi) in ("len(%s)" % listparam, "shape('%s', 0)" % listparam, "len(arr('%s'))" % listparam))
+    if len(reads) != 1 or len(lst) != 1:
+        raise _Unrecognised('equality predicate atoms')
+    cellat, listat = reads[0], lst[0]
+    nan_c = [a for a in ats if isinstance(a, App) and a.name == 'isnan' and a.args[0] == Rat.atom(cellat)]
+    nan_l = [a for a in ats if isinstance(a, App) and a.name == 'isnan' and a.args[0] == Rat.atom(listat)]
+    table = []
+    try:
+        for title, lv_, cv_, ln, cn, want_eq in (('equal', 5, 5, 0, 0, True), ('different', 5, 7, 0, 0, False), ('both NaN', 101, 202, 1, 1, True),
+                                                 ('list NaN only', 101, 5, 1, 0, False), ('cell NaN only', 5, 202, 0, 1, False)):
+            env = {listat: Fr(lv_), cellat: Fr(cv_)}
+            for a in nan_c:
+                env[a] = Fr(cn)
+            for a in nan_l:
+                env[a] = Fr(ln)
+            got = any(all(eval_cond_full(g, env) for g in pth) for pth in epaths)
+            table.append((title, got, want_eq))
+    except CannotEvaluate as e:
+        raise _Unrecognised(str(e))
+    plain_ok = all(g == w for t, g, w in table if t in ('equal', 'different', 'list NaN only', 'cell NaN only'))
+    nan_ok = all(g == w for t, g, w in table)
+    if mode == 'trim':
+        rep.add('T1', kern, entry, site + ': equality with an excluded value', L2.node.lineno, nan_ok and whole,
+                'the exclusion list may contain NaN (it does by default) and `NaN == NaN` is False: the test must be '
+                'NaN-aware, for every value of the list, otherwise NaN borders are never trimmed: %s' % [(t, g) for t, g, w in table])
+    else:
+        rep.add('T2-keep', kern, entry, site + ': equality with a listed id', L2.node.lineno, plain_ok and whole,
+                'a cell is selected iff it equals one of the listed ids (every id is compared): %s' % [(t, g) for t, g, w in table])
+    return axis, direction, bound
+
+
+def _single_sym(r):
+    from ..sym import Rat
+    if isinstance(r, Rat) and r.d.is_const() and len(r.n.t) == 1:
+        (mm, c), = r.n.t.items()
+        if len(mm) == 1 and mm[0][1] == 1 and c == r.d.const_value():
+            return repr(mm[0][0])
+    return None
+
+
 def analyse_scan(prog, rep, kern, entry, loop, ext, data, listparam, mode, earlier=None):
     """one directional scan; returns (axis, direction, bound variable) or None"""
     rd = range_dir(loop.iter, ext)
@@ -316,8 +506,23 @@ def analyse(prog, rep, pubname, mode):
     loops = [s for s in kern.node.body if isinstance(s, ast.For)]
     results = []
     earlier = {}
+    from ..kai import interpret
+    try:
+        kk = interpret(prog, kern, strict=False)
+    except AnalysisIncomplete:
+        kk = None
     for lp in loops:
-        r = analyse_scan(prog, rep, kern, entry, lp, ext, data, listparam, mode, dict(earlier))
+        r = None
+        O = next((L for L in kk.loops if L.node is lp), None) if kk is not None else None
+        if O is not None:
+            mark = len(rep.obs)
+            try:
+                r = analyse_scan_k(prog, rep, kern, entry, kk, O, mode, dict(earlier))
+            except (_Unrecognised, KeyError, AttributeError, IndexError, TypeError):
+                del rep.obs[mark:]          # not a shape the interpreted rule models: the syntactic rule decides
+                r = None
+        if r is None:
+            r = analyse_scan(prog, rep, kern, entry, lp, ext, data, listparam, mode, dict(earlier))
         results.append(r)
         if r and r[2]:
             earlier[(r[0], r[1])] = r[2]
